@@ -56,7 +56,25 @@ class UserTimeout(TimeoutError):
     pass
 
 
+class FalsyError(Exception):
+    """An exception whose instances are falsy (it collects sub-errors, and has none)"""
+
+    def __len__(self):
+        return 0
+
+
+class UnprintableError(Exception):
+    """An exception whose message cannot be built"""
+
+    def __str__(self):
+        raise TypeError("this exception cannot be printed")
+
+
 def make_exception(kind: str):
+    if kind == "FalsyError":
+        return FalsyError("boom")
+    if kind == "UnprintableError":
+        return UnprintableError("boom")
     if kind == "LookupError":
         return LookupError("boom")
     if kind == "UserError":
@@ -111,6 +129,8 @@ EXCEPTION_KINDS = [
     # classes that runtime code is tempted to special-case or that a library converts
     "KeyError", "RuntimeError", "TypeError", "AttributeError", "TimeoutError", "UserTimeout",
     "cf.CancelledError", "cf.InvalidStateError", "asyncio.InvalidStateError",
+    # exception objects of an unusual make
+    "FalsyError", "UnprintableError",
 ]
 BASE_EXCEPTION_KINDS = [
     "SystemExit", "GeneratorExit", "UserBaseError", "asyncio.CancelledError",
